@@ -77,11 +77,11 @@ TRANSLATED = {
  "C11": "BitVector::copy_bit_vec, RLVector::copy_bit_vec, SparseVector::copy_bit_vec (= the six From impls of support.rs), generic over the source (its len, count_ones and the items of its one_iter); FromIterator<bool> for BitVector",
  "C12": "RawVectorWriter::{push_bit, push_int, close_with_header, close}, IntVectorWriter::{push, close} (flush / write_header named by their model functions)",
  "C13": "RawVectorMapper::{bit, int, word, word_unchecked, count_ones}, IntVectorMapper::get (definitionally the in-memory accessors); the view constructors MappedSlice<T>::new, MappedBytes::new, RawVectorMapper::new, IntVectorMapper::new and their map_offset / map_len",
- "C14": "every statement of every serialize_header / serialize_body (obligation: each is a `?`-joined serialize / write_all)",
+ "C14": "every statement of every serialize_header / serialize_body (obligation: each is a `?`-joined serialize / write_all); skip_option (bounded copy named copyTakeSink) = the specified skip on every stream whose prefix is below 2^61",
  "C15": "SparseVector::try_from_iter (size_hint, next_back, multiset builder, try_set chain, try_from), SparseVector::is_multiset",
  "C16": "RLBuilder::{count_zeros, code_len, flush, set_run_unchecked, set_bit_unchecked, try_set, set_len}, SparseBuilder::{is_full, capacity, universe, next_index, is_multiset, is_empty, set_unchecked, try_set, get_params, new, multiset}, SparseVector::try_from(builder), SparseBuilder::{set, extend}, RLBuilder::{default, new, encode}",
  "C17": "every function of bits.rs except select: low_set, high_set (+ unchecked), bit_len, reverse_low, filler_value, read_int, write_int and the nine rounding / offset helpers",
- "C19": "BitVector::{supports_rank, supports_select, supports_select_zero, supports_pred_succ, enable_rank, enable_select, enable_select_zero, enable_pred_succ}; the loaders of BitVector, SparseVector, WaveletMatrix and SparseBuilder::get_buckets at every admissible low width",
+ "C19": "BitVector::{supports_rank, supports_select, supports_select_zero, supports_pred_succ, enable_rank, enable_select, enable_select_zero, enable_pred_succ}; the loaders of BitVector, SparseVector, WaveletMatrix and SparseBuilder::get_buckets at every admissible low width; skip_option (moves exactly past the optional structure)",
 }
 
 
